@@ -5,16 +5,25 @@
    lsp4spl/src/features/goto.rs on an analysed document d (text, tokens, tree, table): ROk None =
    `null`, ROk (Some range) = a Location with that range, RFail = the Rust code panics.
 
+   The model follows /repo b909979: inside a procedure a name is looked up with
+   [lookup_for table locals gp] where gp = [is_global_position cursor] (Model/Cursor.v: the previous
+   non-comment token is `proc`, `type`, `:` or `of`) - globally in a global position, in the
+   procedure's local table first otherwise.  The `_at` functions take gp as their last argument.
+
    PROVED, for ALL documents d - any record of text / tokens / tree / table, in particular every
    output of AnalyzedSource::new:  C12_robust, C12_no_identifier_no_location,
    C12_predefined_no_location, C12_type_definition_none, C12_definition_is_declaration,
-   C12_answer_is_a_token, C12_implementation_refines_declaration.
-   STATED AND REFUTED ON THE MODEL: C12_full_statement, the property text read formally (every
-   identifier occurrence of a diagnostic-free text, at every position inside it, yields the name of
-   the declaration it is bound to by its syntactic role).  The two refutations are the witnesses of
-   the known findings C12-proc-name-shadowed-by-own-local and C12-type-use-shadowed-by-local; outside
-   these classes the statement is validated by the check (correspondence + oracle), not proved. *)
-From Spl Require Import Model.Goto Model.Refs Proofs.GotoProofs.
+   C12_answer_is_a_token, C12_implementation_refines_declaration, and (new with b909979)
+   C12_global_position_ignores_locals, C12_global_position_as_type_context, C12_local_wins.
+   STATED, NOT PROVED, NOT REFUTED: C12_full_statement (Spec/Nav.v), the property text read formally
+   (every identifier occurrence of a diagnostic-free text, at every position inside it, yields the
+   name of the declaration it is bound to by its syntactic role).  Before b909979 it was refuted on
+   the model by the witnesses of the findings C12-proc-name-shadowed-by-own-local and
+   C12-type-use-shadowed-by-local; on these witnesses it HOLDS now (C12_repaired_witnesses_agree), no
+   counterexample is known, and it is validated by the check: correspondence of the model with the
+   server, the derivation-based oracle, and the judge deciding the instances of the Coq statement
+   itself on generated programs (command 37). *)
+From Spl Require Import Model.Goto Model.Refs Spec.Nav Proofs.GotoProofs.
 Import ListNotations.
 Local Open Scope N_scope.
 
@@ -37,20 +46,21 @@ Theorem C12_no_identifier_no_location : forall d line col cur,
 Proof. exact no_identifier_no_location. Qed.
 Print Assumptions C12_no_identifier_no_location.
 
-(* 3. predefined entities: a name that resolves (in the context: local table of the enclosing
-      procedure, then the global table) to an entry named like a predefined entity yields no
-      location from declaration / definition / implementation *)
-Theorem C12_predefined_no_location : forall d name ctx e,
-  resolve d ctx name = Some e -> is_default e = true ->
-  declaration_at d name ctx = ROk None /\ implementation_at d name ctx = ROk None.
+(* 3. predefined entities: a name that resolves ([resolve], Model/Refs.v: in a type context in the
+      global table; in a procedure context in the local table first unless gp, then in the global
+      table) to an entry named like a predefined entity yields no location from declaration /
+      definition / implementation *)
+Theorem C12_predefined_no_location : forall d name ctx gp e,
+  resolve name ctx (d_table d) gp = Some e -> is_default e = true ->
+  declaration_at d name ctx gp = ROk None /\ implementation_at d name ctx gp = ROk None.
 Proof. exact predefined_no_location. Qed.
 Print Assumptions C12_predefined_no_location.
 
 (* 4. typeDefinition: no location for the type `int`, for procedures, and for variables and
       parameters of primitive or unknown type or of an array type whose creator is not a type of
       the table (an anonymous array type) *)
-Theorem C12_type_definition_none : forall d name ctx e,
-  resolve d ctx name = Some e -> no_type_target d name e -> type_definition_at d name ctx = ROk None.
+Theorem C12_type_definition_none : forall d name ctx gp e,
+  resolve name ctx (d_table d) gp = Some e -> no_type_target d name e -> type_definition_at d name ctx gp = ROk None.
 Proof. exact type_definition_none. Qed.
 Print Assumptions C12_type_definition_none.
 
@@ -76,7 +86,7 @@ Theorem C12_implementation_refines_declaration : forall d line col x,
 Proof. exact implementation_refines_declaration. Qed.
 Print Assumptions C12_implementation_refines_declaration.
 
-(* 7. the full functional statement.  [occurrences], [binding], [spec_*] (Proofs/GotoProofs.v) are
+(* 7. the full functional statement.  [occurrences], [binding], [spec_*] (Spec/Nav.v) are
       computed from the TREE alone; [clean_doc t d]: d is the analysis of the text t and has no
       diagnostics; [cursor_inside d o l c]: (l, c) addresses a byte of o's identifier token. *)
 Definition C12_full_statement : Prop := full_statement.
@@ -90,32 +100,96 @@ Example C12_full_statement_unfold :
      /\ goto_implementation d l c = ROk (spec_implementation d o)).
 Proof. reflexivity. Qed.
 
-(* refuted on the model: `proc f(f: int) { f := 1; } proc main() { f(2); }`, cursor on the `f`
-   after `proc` - the handlers answer with the parameter *)
-Theorem C12_full_statement_refuted : ~ C12_full_statement.
-Proof. exact full_statement_refuted. Qed.
-Print Assumptions C12_full_statement_refuted.
+(* ---- resolution by syntactic position (/repo b909979) ---- *)
 
-(* and by `type t = int; proc main() { var t: t; t := 1; }`, cursor on the type identifier `t` *)
-Theorem C12_full_statement_refuted_by_type_name : ~ C12_full_statement.
-Proof. exact full_statement_refuted_type_name. Qed.
-Print Assumptions C12_full_statement_refuted_by_type_name.
+(* 8. in a global position - the name of a global declaration, an identifier of a type expression -
+      the parameters and variables of the enclosing procedure play no role: the answers are the same
+      whatever the procedure context *)
+Theorem C12_global_position_ignores_locals : forall d name p p',
+  declaration_at d name (GProcE p) true = declaration_at d name (GProcE p') true
+  /\ type_definition_at d name (GProcE p) true = type_definition_at d name (GProcE p') true
+  /\ implementation_at d name (GProcE p) true = implementation_at d name (GProcE p') true.
+Proof. exact global_position_ignores_locals. Qed.
+Print Assumptions C12_global_position_ignores_locals.
 
-(* ---- non-vacuity ---- *)
+(* 9. ... and, for every name but `int`, they are the answers given inside a type declaration *)
+Theorem C12_global_position_as_type_context : forall d name p t,
+  text_eqb name s_int = false ->
+  declaration_at d name (GProcE p) true = declaration_at d name (GTypeE t) true
+  /\ type_definition_at d name (GProcE p) true = type_definition_at d name (GTypeE t) true.
+Proof. exact global_position_as_type_context. Qed.
+Print Assumptions C12_global_position_as_type_context.
 
-(* the two witnesses are diagnostic-free programs and satisfy the hypothesis of C12_robust *)
+(* 10. outside a global position a parameter or variable of the enclosing procedure wins, whatever
+       else carries its name: declaration answers with the local's own name token, implementation
+       with nothing *)
+Theorem C12_local_wins : forall d name p le,
+  lookup (pe_local p) name = Some le ->
+  declaration_at d name (GProcE p) false
+  = (do toks <- entry_tokens d p (entry_of_l le); answer d toks (entry_of_l le))
+  /\ implementation_at d name (GProcE p) false = ROk None.
+Proof. exact local_wins. Qed.
+Print Assumptions C12_local_wins.
+
+(* ---- non-vacuity, instances of the full statement ---- *)
+
+(* the witnesses of the two repaired findings and the collision program are diagnostic-free and
+   satisfy the hypothesis of C12_robust *)
 Example C12_witnesses_clean :
-  is_clean witness_own_name = true /\ is_clean witness_type_name = true
-  /\ nav_wf_b (doc_of witness_own_name) = true /\ nav_wf_b (doc_of witness_type_name) = true.
+  is_clean witness_own_name = true /\ is_clean witness_type_name = true /\ is_clean witness_collisions = true
+  /\ nav_wf_b (doc_of witness_own_name) = true /\ nav_wf_b (doc_of witness_type_name) = true
+  /\ nav_wf_b (doc_of witness_collisions) = true.
 Proof. vm_compute. repeat split. Qed.
 
-(* what the model answers on the first witness: declaration on the header's `f` (0,5) is the
-   parameter at (0,7)-(0,8), the specification says (0,5)-(0,6) *)
-Example C12_witness_own_name_answers :
-  goto_declaration (doc_of witness_own_name) 0 5 = ROk (Some ((0, 7), (0, 8)))
+(* what the model answers on the first witness `proc f(f: int) { f := 1; } proc main() { f(2); }`:
+   declaration and implementation on the header's `f` (0,5) are the header's `f` (before b909979: the
+   parameter at (0,7)-(0,8) and null), as the specification says; on the parameter (0,7) and its use
+   (0,17) the parameter; on the call (0,41) the procedure.  On the second witness
+   `type t = int; proc main() { var t: t; t := 1; }` the type identifier (0,35) goes to the type
+   (before: to the variable (0,32)-(0,33)), the variable's use (0,38) to the variable *)
+Example C12_repaired_witness_answers :
+  goto_declaration (doc_of witness_own_name) 0 5 = ROk (Some ((0, 5), (0, 6)))
   /\ option_map (spec_declaration (doc_of witness_own_name)) (nth_error (occurrences (d_ast (doc_of witness_own_name))) 0)
      = Some (Some ((0, 5), (0, 6)))
-  /\ goto_implementation (doc_of witness_own_name) 0 5 = ROk None.
+  /\ goto_implementation (doc_of witness_own_name) 0 5 = ROk (Some ((0, 5), (0, 6)))
+  /\ goto_declaration (doc_of witness_own_name) 0 7 = ROk (Some ((0, 7), (0, 8)))
+  /\ goto_declaration (doc_of witness_own_name) 0 17 = ROk (Some ((0, 7), (0, 8)))
+  /\ goto_declaration (doc_of witness_own_name) 0 41 = ROk (Some ((0, 5), (0, 6)))
+  /\ goto_declaration (doc_of witness_type_name) 0 35 = ROk (Some ((0, 5), (0, 6)))
+  /\ goto_type_definition (doc_of witness_type_name) 0 35 = ROk (Some ((0, 5), (0, 6)))
+  /\ goto_declaration (doc_of witness_type_name) 0 38 = ROk (Some ((0, 32), (0, 33))).
+Proof. vm_compute. repeat split. Qed.
+
+(* the instances of C12_full_statement on the two former counterexamples and on the collision program
+   (a parameter named like its procedure and of array type, a parameter named like a type that a later
+   parameter uses, variables named `int` and `printi`, a parameter named like another procedure, a
+   type used only behind `of`, a forward call): at EVERY occurrence (6, 6, 35), first and last column,
+   the handlers answer what the specification says *)
+Example C12_repaired_witnesses_agree :
+  let ok t := forallb (agrees_at (doc_of t)) (occurrences (d_ast (doc_of t))) in
+  ok witness_own_name = true /\ ok witness_type_name = true /\ ok witness_collisions = true
+  /\ length (occurrences (d_ast (doc_of witness_own_name))) = 6%nat
+  /\ length (occurrences (d_ast (doc_of witness_type_name))) = 6%nat
+  /\ length (occurrences (d_ast (doc_of witness_collisions))) = 35%nat.
+Proof. vm_compute. repeat split. Qed.
+
+(* instances of theorems 8-10 on the collision program (line 1: `proc f(ref f: t, t: int, ref g: t) {
+   var int: int; var printi: u; f[t] := int; printi[0][1] := g[0]; }`): the header's `f` (1,5) and the
+   type `t` behind the colons (1,14), (1,32) are global positions; the parameters f (1,11), t (1,17) and
+   the uses `f[t]` (1,66), (1,68) are not.  The use of the parameter f goes to the parameter, its
+   typeDefinition to `type t`, implementation gives nothing; the call f(...) in g (2,37) goes to the
+   procedure; the variable `int` (1,74) to its declaration, the type `int` (1,46) nowhere; the variable
+   `printi` (1,79) to its declaration, the call of the predefined printi (2,49) nowhere *)
+Example C12_collision_answers :
+  let d := doc_of witness_collisions in
+  goto_declaration d 1 5 = ROk (Some ((1, 5), (1, 6))) /\ goto_declaration d 1 14 = ROk (Some ((0, 5), (0, 6)))
+  /\ goto_declaration d 1 32 = ROk (Some ((0, 5), (0, 6)))
+  /\ goto_declaration d 1 11 = ROk (Some ((1, 11), (1, 12))) /\ goto_declaration d 1 17 = ROk (Some ((1, 17), (1, 18)))
+  /\ goto_declaration d 1 66 = ROk (Some ((1, 11), (1, 12))) /\ goto_declaration d 1 68 = ROk (Some ((1, 17), (1, 18)))
+  /\ goto_type_definition d 1 66 = ROk (Some ((0, 5), (0, 6))) /\ goto_implementation d 1 66 = ROk None
+  /\ goto_implementation d 2 37 = ROk (Some ((1, 5), (1, 6)))
+  /\ goto_declaration d 1 74 = ROk (Some ((1, 41), (1, 44))) /\ goto_declaration d 1 46 = ROk None
+  /\ goto_declaration d 1 79 = ROk (Some ((1, 55), (1, 61))) /\ goto_declaration d 2 49 = ROk None.
 Proof. vm_compute. repeat split. Qed.
 
 (* a program with type aliases, an anonymous array, reference parameters, index / negated /
